@@ -21,7 +21,8 @@ template <> struct Render<int> { static int make(int n) { return n; } static int
 template <> struct Render<bool> { static bool make(int n) { return n & 1; } static int back(bool v) { return v ? 1 : 0; } };
 template <> struct Render<double> { static double make(int n) { return n + 0.5; } static int back(double v) { return (int)(v - 0.5); } };
 template <> struct Render<std::string> {
-    static std::string make(int n) { return "s" + std::to_string(n); }
+    // every fourth value is longer than libstdc++'s small-string buffer (15), so that moves / swaps / copies of heap-backed strings are exercised
+    static std::string make(int n) { std::string v = "s" + std::to_string(n); if (n % 4 == 0) v += "_" + std::string(20 + (size_t)(n % 13), 'x'); return v; }
     static int back(const std::string &v) { return v.size() > 1 ? atoi(v.c_str() + 1) : -1; }
 };
 template <> struct Render<Vec3d> {
